@@ -220,6 +220,10 @@ partial def loop (h : IO.FS.Stream) (s : DS) : IO Unit := do
       let ok := flat r.evs == specEvs && deliveredOf g.isClient specEvs == specDel
       IO.println s!"R err={err} cache={if err == 0 then toString cache else "?"} st={if err == 0 then toString st else "?"} nb={msgs} offs={offs} ref={ref}{if ok then "" else " spec-mismatch"}"
     loop h s
+  -- hhttpe (engine-level "nothing after an error"): an implementation-only stream; the model-level statement is
+  -- theorem c08_silent_after_close, the driver only keeps the line protocol in step (fields compared: none)
+  | ["C", mode] => IO.println (if mode == "0" || mode == "1" || mode == "2" then "ok" else "bad-op"); loop h s
+  | ["S", _, _, _] => IO.println "R"; loop h s
   | _ => IO.println "bad-op"; loop h s
 
 def main : IO Unit := do
